@@ -88,8 +88,13 @@ func (partyIDs IDSlice) WriteTo(w io.Writer) (int64, error) {
 	if err != nil {
 		return 0, err
 	}
-	nAll := int64(4)
+	nAll := int64(8)
 	for _, id := range partyIDs {
+		// every identifier is preceded by its length: otherwise {"a","bc"} and {"ab","c"} are written alike
+		if err = binary.Write(w, binary.BigEndian, uint32(len(id))); err != nil {
+			return nAll, err
+		}
+		nAll += 4
 		n, err = w.Write([]byte(id))
 		nAll += int64(n)
 		if err != nil {
